@@ -39,13 +39,13 @@ LEVEL_TEXT = (
     "FIRST flat index of the extremum (argmin_eq_numpy_all / argmax_eq_numpy_all: 1-d / raveled order, empty blocks included), "
     "top-k (topk_eq_sort_take), var/std/moment(order 2) over exact rationals (var_eq_numpy: the k-way Chan–Pébay merge of "
     "moment_combine = NumPy's two-pass Σ(x-mean)²/(n-ddof), empty blocks included, undefined iff n ≤ ddof; nanvar_eq_numpy; "
-    "var_chunking_irrelevant). Several axes at once: gridReduce_eq_fold and sum/prod/any/all/mean/min/max_nd_eq_numpy (any "
+    "var_chunking_irrelevant), nansum/nanprod/nanmin/nanmax/nanmean_eq_numpy (NaN entries dropped block by block). Several axes at once: gridReduce_eq_fold and sum/prod/any/all/mean/min/max_nd_eq_numpy (any "
     "commutative monoid, every grid of blocks, per-axis split_every; min/max through gridReduce_mapGrid). K2: sequential "
     "cumreduction equals the global scan for every chunking including zero-length blocks (seqScan_eq_scan); Blelloch: the "
     "interval checker is sound (blelloch_sound) and dask's schedule is accepted for EVERY n_vals (blelloch_schedule_ok), hence "
     "cumsum/cumprod(method='blelloch') = NumPy for every chunking (cumsum_blelloch_eq_numpy, any monoid). VALIDATED, not "
-    "proved: float summation order (tolerance), moments of order ≥ 3, var/std over several axes at once, nan-variants other "
-    "than nanvar, argtopk (indices checked against the values), median/quantile/percentile glue (rechunk to one block + NumPy), "
+    "proved: float summation order (tolerance), moments of order ≥ 3, var/std over several axes at once, nanstd / nanarg* / "
+    "nancumsum / nancumprod, argtopk (indices checked against the values), median/quantile/percentile glue (rechunk to one block + NumPy), "
     "arg-reductions over several axes, dtype rules, and that a reduction leaves the blocks it reads untouched (section "
     "'shared': sequences / persisted / joint computes / x - f(x, keepdims=True) after median, quantile, percentile, topk …)."
 )
